@@ -129,67 +129,7 @@ func isPtrTo(t types.Type, pkg, name string) bool {
 // lockOf: the lock kind under which instruction `in` runs: it is inside a closure whose every use is as the
 // argument of a lock helper, or after an explicit Lock/RLock in the same function ("" = none).
 func (ir *idleRoles) lockOf(p *core.Prog, in ssa.Instruction) string {
-	fn := in.Parent()
-	// explicit lock in same function dominating
-	kind := ""
-	core.AllInstrs(fn, func(x ssa.Instruction) {
-		if _, isDefer := x.(*ssa.Defer); isDefer {
-			return
-		}
-		if mutexCall(x, ir.mu, "Lock") && core.Dominates(x, in) {
-			kind = "W"
-		}
-		if mutexCall(x, ir.mu, "RLock") && core.Dominates(x, in) && kind == "" {
-			kind = "R"
-		}
-	})
-	if kind != "" {
-		return kind
-	}
-	if fn.Parent() == nil {
-		return ""
-	}
-	// closure: all MakeClosure uses go to lock helpers
-	res := ""
-	okAll := true
-	n := 0
-	core.AllInstrs(fn.Parent(), func(x ssa.Instruction) {
-		mc, ok := x.(*ssa.MakeClosure)
-		if !ok || mc.Fn != ssa.Value(fn) {
-			return
-		}
-		for _, ref := range *mc.Referrers() {
-			n++
-			cc := core.CallCommon(ref)
-			if cc == nil {
-				okAll = false
-				continue
-			}
-			if k, ok := ir.lockHelpers[cc.StaticCallee()]; ok {
-				if res == "" || k == "R" {
-					res = k
-				}
-			} else {
-				okAll = false
-			}
-		}
-	})
-	if n == 0 || !okAll {
-		// nested closure inside a locked closure
-		if fn.Parent() != nil {
-			var mcIn ssa.Instruction
-			core.AllInstrs(fn.Parent(), func(x ssa.Instruction) {
-				if mc, ok := x.(*ssa.MakeClosure); ok && mc.Fn == ssa.Value(fn) {
-					mcIn = x
-				}
-			})
-			if mcIn != nil && fn.Parent().Parent() != nil {
-				return ir.lockOf(p, mcIn)
-			}
-		}
-		return ""
-	}
-	return res
+	return lockKind(p, in, ir.mu)
 }
 
 func runC20(c *core.Ctx) {
@@ -655,10 +595,18 @@ func (e *idleEdge) nilTimerEdges(fn *ssa.Function) map[edgeKey]bool {
 func mustPassWithNilTimerExempt(p *core.Prog, e *idleEdge, fn *ssa.Function, q *core.Query) (ssa.Instruction, []*ssa.BasicBlock) {
 	nilE := e.nilTimerEdges(fn)
 	// closure-level: a closure "satisfies" if every path passes the event or a nil-timer edge
-	sat := map[*ssa.Function]bool{}
-	for _, f := range core.WithAnon(fn) {
-		if f == fn {
-			continue
+	memo := map[*ssa.Function]bool{}
+	satOf := func(f *ssa.Function) bool {
+		f = unbound(f) // a method value handed to the lock helper runs the method
+		if f == nil || f.Blocks == nil || f == fn || !p.InRepo(f) {
+			return false
+		}
+		if v, ok := memo[f]; ok {
+			return v
+		}
+		nilF := nilE
+		if f.Parent() == nil {
+			nilF = e.nilTimerEdges(f)
 		}
 		t, _ := core.Search(nil, f.Blocks[0], func(x ssa.Instruction) core.Action {
 			if q.InstrMust(x, nil) {
@@ -668,8 +616,9 @@ func mustPassWithNilTimerExempt(p *core.Prog, e *idleEdge, fn *ssa.Function, q *
 				return core.Target
 			}
 			return core.Continue
-		}, func(a, b *ssa.BasicBlock) bool { return !nilE[edgeKey{a, b}] })
-		sat[f] = t == nil
+		}, func(a, b *ssa.BasicBlock) bool { return !nilF[edgeKey{a, b}] })
+		memo[f] = t == nil
+		return t == nil
 	}
 	q2 := &core.Query{P: p, Pred: func(x ssa.Instruction) bool {
 		if q.Pred(x) {
@@ -677,11 +626,11 @@ func mustPassWithNilTimerExempt(p *core.Prog, e *idleEdge, fn *ssa.Function, q *
 		}
 		// call of a lock helper (or direct call) with a satisfying closure
 		if cc := core.CallCommon(x); cc != nil {
-			if f := core.FuncValue(cc.Value, nil); f != nil && sat[f] {
+			if f := core.FuncValue(cc.Value, nil); f != nil && f.Parent() != nil && satOf(f) {
 				return true
 			}
 			for _, a := range cc.Args {
-				if f := core.FuncValue(a, nil); f != nil && sat[f] {
+				if f := core.FuncValue(a, nil); f != nil && satOf(f) {
 					if _, isHelper := e.ir.lockHelpers[cc.StaticCallee()]; isHelper {
 						return true
 					}
